@@ -126,12 +126,9 @@ impl<'r, 'c, 's, W: Write> Serializer for DatumSerializer<'r, 'c, 's, W> {
 				.write_all(&(v as f32).to_le_bytes())
 				.map_err(SerError::io),
 			SchemaNode::Decimal(decimal) => {
-				let rust_decimal: rust_decimal::Decimal = num_traits::FromPrimitive::from_f64(v)
-					.ok_or_else(|| {
-						SerError::new(
-							"f64 cannot be converted to decimal for serialization as Decimal",
-						)
-					})?;
+				let rust_decimal = decimal::f64_to_decimal(v).ok_or_else(|| {
+					SerError::new("f64 cannot be converted to decimal for serialization as Decimal")
+				})?;
 				decimal::serialize(
 					self.state,
 					decimal::DecimalMode::Regular(decimal),
@@ -139,12 +136,9 @@ impl<'r, 'c, 's, W: Write> Serializer for DatumSerializer<'r, 'c, 's, W> {
 				)
 			}
 			SchemaNode::BigDecimal => {
-				let rust_decimal: rust_decimal::Decimal = num_traits::FromPrimitive::from_f64(v)
-					.ok_or_else(|| {
-						SerError::new(
-							"f64 cannot be converted to decimal for serialization as BigDecimal",
-						)
-					})?;
+				let rust_decimal = decimal::f64_to_decimal(v).ok_or_else(|| {
+					SerError::new("f64 cannot be converted to decimal for serialization as BigDecimal")
+				})?;
 				decimal::serialize(self.state, decimal::DecimalMode::Big, rust_decimal)
 			}
 			SchemaNode::Union(union) => {
